@@ -210,4 +210,21 @@ CHECKS = {
   'note': TB,
   'technique': 'Coq frame-separation theorem over translated interpreter constants + deep/recursive/cyclic/GC-callback harness in normal and checkptr child processes',
  },
+ 'C19': {
+  'text': ("Proof (Coq): model of the stored Code tree, the Filter methods, the run of a filtered program on a value, the query cache and FieldQuery.MarshalJSON / "
+           "FieldQueryString.Build. Theorems: for EVERY code tree, value (any nesting of pointers, lists, maps, structs, interfaces and context-aware marshalers holding "
+           "values of any code) and query, the text written under the query is the text of the document restricted to the selected fields (filtering the program commutes "
+           "with restricting the document); selected keys are exactly the named keys of the whole document in order; a field selected without a sub query is written whole; "
+           "for EVERY history of encodings of one type with different queries and with none each gets the program of its own query (cache keyed by the query's text, which "
+           "determines the query); Build(QueryString(q)) = q for every query BuildFieldQuery can make; the threshold of MarshalJSON matters (refutation for any other). "
+           "The shapes of the Filter methods, of the interface operation, of the cache, of the marshaler call and the threshold are TRANSLATED from the source on every run. "
+           "Observed: generated struct types of the C01 grammar and a fixed family with interfaces, non-empty interfaces and context-aware marshalers inside pointers, "
+           "slices and maps; queries = random subsets of keys at every level to depth 3 plus names that do not exist; several queries and the unfiltered encoding on the "
+           "same type in random orders, twice; oracle = encoding/json's document projected along the Go value; every triple is also run through the extracted model. "
+           "Three defects found and repaired (BuildFieldQuery panic on an empty sub query; sub queries ignored on slices, arrays and maps; values in interfaces selected "
+           "by the document's query instead of the field's). Partial: embedded (promoted) fields and struct types with two fields of one name are not generated; the text "
+           "rendering of a query name relies on C01/C17; MarshalIndent with a query is observed only through the shared program."),
+  'note': TB,
+  'technique': 'Coq filter/projection commutation, cache-history and QueryString round-trip theorems over translated Filter shapes + extracted-model correspondence and projected encoding/json oracle on generated types, values, queries and orders',
+ },
 }
